@@ -85,6 +85,15 @@ def gen_layout(rng: random.Random):
         cyc = [[a.copy() for a in r] for r in G.pool()["5vav_cyclic_peptide.pdb"] if G.is_protein(r)]
         G.set_chain(cyc, "Z", 1)
         G.rigid(cyc, [[1, 0, 0], [0, 1, 0], [0, 0, 1]], (0, 80.0, 0))
+        if rng.random() < 0.5:
+            # waters / a hetero group filed under the cyclic peptide's own chain identifier, after it
+            cc = G.centroid(cyc)
+            kindh = rng.choice(["water", "water", "ligand"])
+            w = G.water(rng, "Z", 950, (cc[0] + 20.0, cc[1], cc[2]), 4.0, "HOH" if kindh == "water" else "LIG")
+            if kindh != "water":
+                w[0].name = "C1"
+            cyc.append(w)
+            feats.add("cyclic+trailing-" + kindh)
         chains.append(cyc)
         feats.add("cyclic")
     text = G.to_pdb(chains, waters, ter=rng.random() < 0.8)
@@ -125,6 +134,14 @@ def real_set_termini(text, neutraln, neutralc):
     def wrapped(self, chain, *, neutraln=False, neutralc=False):
         if len(chain.residues) > 0:
             r0, rl = chain.residues[0], chain.residues[-1]
+            # the ring closes on the last amino residue, looking through trailing waters / hetero groups (model: ringEnd)
+            for rt in reversed(chain.residues):
+                k = kind_of(rt)
+                if k == "a":
+                    rl = rt
+                    break
+                if rt.name in ("NH2", "NME") or k == "n":
+                    break
             cyc = False
             if "N" in r0.map and "C" in rl.map:
                 cyc = util.distance(r0.map["N"].coords, rl.map["C"].coords) < 1.35
@@ -161,7 +178,20 @@ def check_termini(after, bits_first_pass, bio, neutral=None):
             continue
         from pdb2pqr import utilities as util
 
-        r0, rl = real_chain.residues[0], real_chain.residues[-1]
+        # a head-to-tail cyclic peptide: the ring closes on the LAST AMINO residue of the chain (the property speaks of the
+        # peptide; waters / hetero groups filed under the same chain identifier after it are not part of the ring).
+        # The first version of this oracle tested the chain's very last residue, as the code then did - and so agreed
+        # with a genuine defect (fix: recorded in known_findings.txt)
+        r0 = real_chain.residues[0]
+        rl = real_chain.residues[aminos[-1]]
+        for i in range(len(real_chain.residues) - 1, -1, -1):
+            rr = real_chain.residues[i]
+            if kind_of(rr) == "a":
+                rl = rr
+                break
+            if rr.name in ("NH2", "NME") or kind_of(rr) == "n":
+                rl = real_chain.residues[-1]
+                break
         cyc = "N" in r0.map and "C" in rl.map and util.distance(r0.map["N"].coords, rl.map["C"].coords) < 1.35
         nflags = [i for i in aminos if ch[i][1][0]]
         cflags = [i for i in aminos if ch[i][1][1]]
@@ -448,10 +478,53 @@ def run(ctx: Ctx):
     run_extra(ctx)
 
 
+def cyclic_requests(rng):
+    """the head-to-tail cyclic peptide of the test data with waters after it: filed under the peptide's chain identifier
+    (as deposited entries file them) or under another one, as HETATM or ATOM records, with / without TER, with / without
+    --drop-water. Oracle from the request: the ring is closed in the INPUT coordinates (N of the first, C of the last
+    amino residue < 1.35 A), so the first residue carries no +1 and the last no -1."""
+    import math
+
+    cyc = [[a.copy() for a in r] for r in G.pool()["5vav_cyclic_peptide.pdb"] if G.is_protein(r)]
+    n = next(a for a in cyc[0] if a.name == "N")
+    c = next(a for a in cyc[-1] if a.name == "C")
+    closed = math.dist((n.x, n.y, n.z), (c.x, c.y, c.z)) < 1.35
+    G.set_chain(cyc, "A", 1)
+    k = 0
+    for rec in ("HETATM", "ATOM  "):
+        for wchain in ("A", "W"):
+            for ter in (False, True):
+                for drop in (False, True):
+                    ff = ("AMBER", "PARSE", "CHARMM")[k % 3]
+                    k += 1
+                    cen = G.centroid(cyc)
+                    waters = [G.water(rng, wchain, 900 + j, (cen[0] + 25.0, cen[1], cen[2]), 5.0, "HOH", rec) for j in range(rng.randint(1, 3))]
+                    text = G.to_pdb([cyc], waters, ter=ter)
+                    yield text, ff, [f"--ff={ff}"] + (["--drop-water"] if drop else []), {"cyclic+waters:" + ("same-chain" if wchain == "A" else "other-chain"), "waters-as:" + rec.strip(), "ter" if ter else "no-ter", "drop-water" if drop else "keep-water"}, closed, (cyc[0][0].resn, cyc[-1][0].resn)
+
+
 def run_extra(ctx: Ctx):
     """streams added with the nucleic-acid model and the round-4 seeded defects"""
     rng = ctx.rng
     seen = set()
+    for text, ff, opts, feats, closed, (first, last) in cyclic_requests(rng):
+        r = G.run_pipeline(text, opts)
+        ctx.evaluations += 1
+        ctx.count("cyclic-run", r.status)
+        for f in feats:
+            ctx.count("cyclic-features", f)
+        ctx.distinct.add(("cyclic", ff, tuple(sorted(feats))))
+        if r.status != "ok" or not closed:
+            continue
+        aminos = [x for x in r.biomolecule.residues if kind_of(x) == "a"]
+        q0, q1 = Decimal(repr(aminos[0].charge)), Decimal(repr(aminos[-1].charge))
+        w0, w1 = SIDE.get(first, 0), SIDE.get(last, 0)
+        if abs(q0 - w0) > Decimal("1e-6") or abs(q1 - w1) > Decimal("1e-6"):
+            sig = {"ff": ff, "kind": "cyclic-has-termini", "waters": "same-chain" if "cyclic+waters:same-chain" in feats else "other-chain", "drop": "--drop-water" in opts}
+            kk = tuple(sorted(sig.items()))
+            if kk not in seen:
+                seen.add(kk)
+                ctx.violate(sig, f"head-to-tail cyclic peptide ({' '.join(sorted(feats))}): first residue {aminos[0]} has charge {q0} (expected {w0}), last {aminos[-1]} has {q1} (expected {w1}): termini were applied", {"pdb": text, "options": opts, "ff": ff, "stage": "cyclic", "ends": [first, last]})
 
     def report(pr, replay):
         for sig, msg in pr:
@@ -492,6 +565,14 @@ def run_extra(ctx: Ctx):
 
 def replay(ctx: Ctx, data: dict) -> bool:
     rp = data.get("replay", data)
+    if rp.get("stage") == "cyclic":
+        r = G.run_pipeline(rp["pdb"], rp["options"])
+        print("status:", r.status, r.exc)
+        if r.status != "ok":
+            return False
+        aminos = [x for x in r.biomolecule.residues if kind_of(x) == "a"]
+        print(aminos[0], aminos[0].charge, aminos[-1], aminos[-1].charge)
+        return abs(aminos[0].charge - SIDE.get(rp["ends"][0], 0)) > 1e-6 or abs(aminos[-1].charge - SIDE.get(rp["ends"][1], 0)) > 1e-6
     if rp.get("stage") in ("strand", "segments"):
         r = G.run_pipeline(rp["pdb"], rp["options"])
         print("status:", r.status, r.exc)
